@@ -1,5 +1,176 @@
-import TraitsVerif.Model.TraitList
+/-
+Property C05 — TraitList refines list and its change events are faithful
+normalised deltas.
+
+Only property theorems and non-vacuity examples live here; the work is in
+Lemmas/Seq*.lean.  Everything is universally quantified over the element type,
+the list (any length), the operation (any integer index, any slice with
+None / positive / negative / oversized start, stop, step), the item validator
+(an arbitrary partial function of call ordinal and item), `==` on items and the
+permutation `list.sort` applies.
+-/
+import TraitsVerif.Lemmas.SeqRefine
 import TraitsVerif.Generated.Mutators
 namespace TraitsVerif.Props.C05
-theorem placeholder : True := trivial
+open TraitsVerif TraitsVerif.Py TraitsVerif.Model
+variable {α : Type}
+
+/-- **Refinement (success).** A successful `TraitList` operation leaves exactly
+what the builtin list holds after the same operation on the validated items,
+and returns the same value. -/
+theorem C05_refines_ok (E : Env α) (l : List α) (op : Op α) (o : Out α)
+    (h : TraitList.step E l op = .ok o) :
+    ∃ op', validateOp E op = .ok op' ∧ pyStep E l op' = .ok (o.items, o.ret) :=
+  step_refines_ok E l op o h
+
+/-- **Refinement (completeness).** Where validation succeeds and the builtin
+list succeeds on the validated items, `TraitList` succeeds too, same result. -/
+theorem C05_refines_complete (E : Env α) (l : List α) (op op' : Op α) (l' : List α)
+    (r : Option α) (hv : validateOp E op = .ok op') (hp : pyStep E l op' = .ok (l', r)) :
+    ∃ o, TraitList.step E l op = .ok o ∧ o.items = l' ∧ o.ret = r :=
+  step_refines_complete E l op op' l' r hv hp
+
+/-- **Refinement (failure).** The only exceptions are the item validator's own
+and the one the builtin list raises (same class) on the same operation. -/
+theorem C05_refines_error (E : Env α) (l : List α) (op : Op α) (e : Exc)
+    (h : TraitList.step E l op = .error e) :
+    validateOp E op = .error e
+    ∨ (∃ op', validateOp E op = .ok op' ∧ pyStep E l op' = .error e)
+    ∨ pyStep E l op = .error e :=
+  step_refines_error E l op e h
+
+/-- **Atomicity.** A failing operation leaves the list untouched and emits
+nothing: the history continues from the same contents. -/
+theorem C05_atomic (E : Env α) (l : List α) (op : Op α) (ops : List (Op α)) (e : Exc)
+    (h : TraitList.step E l op = .error e) :
+    TraitList.run E l (op :: ops) = .error e :: TraitList.run E l ops := by
+  simp [TraitList.run, h]
+
+/-- **Replay law.** Replacing, in the snapshot taken before the operation, the
+removed items at `index` by the added items yields the contents after. -/
+theorem C05_replay (E : Env α) (l : List α) (op : Op α) (o : Out α) (e : Event α)
+    (h : TraitList.step E l op = .ok o) (he : o.event = some e) :
+    replay l e = some o.items :=
+  (step_event_ok E l op o e h he).1
+
+/-- **Index normal form / removed-exactness.** The index is an integer in
+`0..len` at which exactly the removed items sit, or a slice with
+`0 ≤ start < stop ≤ len`, `step ≥ 2` selecting exactly the removed items. -/
+theorem C05_index_normal (E : Env α) (l : List α) (op : Op α) (o : Out α) (e : Event α)
+    (h : TraitList.step E l op = .ok o) (he : o.event = some e) :
+    NormalForm l e :=
+  (step_event_ok E l op o e h he).2
+
+/-- **Exactly one event per change.** The model emits at most one event per
+operation by construction (`Out.event : Option _`); an operation that emits
+none did not change the contents. -/
+theorem C05_change_has_event (E : Env α) (hs : SortOk E) (l : List α) (op : Op α) (o : Out α)
+    (h : TraitList.step E l op = .ok o) (hne : o.items ≠ l) : ∃ e, o.event = some e := by
+  cases he : o.event with
+  | some e => exact ⟨e, rfl⟩
+  | none => exact absurd (step_silent E hs l op o h he) hne
+
+/-- **Identity events.** An operation that changes nothing may only emit an
+event whose replay is the identity. -/
+theorem C05_identity_event (E : Env α) (l : List α) (op : Op α) (o : Out α) (e : Event α)
+    (h : TraitList.step E l op = .ok o) (he : o.event = some e) (hsame : o.items = l) :
+    replay l e = some l := by
+  rw [C05_replay E l op o e h he, hsame]
+
+/-- What property C05 says about one result `r` obtained from contents `l`. -/
+def Good (E : Env α) (l : List α) (op : Op α) : Except Exc (Out α) → Prop
+  | .error e =>
+      validateOp E op = .error e
+      ∨ (∃ op', validateOp E op = .ok op' ∧ pyStep E l op' = .error e)
+      ∨ pyStep E l op = .error e
+  | .ok o =>
+      (∃ op', validateOp E op = .ok op' ∧ pyStep E l op' = .ok (o.items, o.ret))
+      ∧ (∀ e, o.event = some e → replay l e = some o.items ∧ NormalForm l e)
+      ∧ (o.event = none → o.items = l)
+
+/-- The per-operation claims along a whole history: each operation is `Good`
+with respect to the contents left by the operations before it (a failed one
+leaves them as they were). -/
+def GoodHistory (E : Env α) : List α → List (Op α) → Prop
+  | _, [] => True
+  | l, op :: ops =>
+    Good E l op (TraitList.step E l op) ∧
+      GoodHistory E (match TraitList.step E l op with | .ok o => o.items | .error _ => l) ops
+
+/-- **Histories.** Every finite sequence of operations from any starting
+contents satisfies all of the above at every step. -/
+theorem C05_history (E : Env α) (hs : SortOk E) (l : List α) (ops : List (Op α)) :
+    GoodHistory E l ops := by
+  induction ops generalizing l with
+  | nil => trivial
+  | cons op ops ih =>
+    refine ⟨?_, ih _⟩
+    cases h : TraitList.step E l op with
+    | error e => exact step_refines_error E l op e h
+    | ok o =>
+      exact ⟨step_refines_ok E l op o h, fun e he => step_event_ok E l op o e h he,
+        fun he => step_silent E hs l op o h he⟩
+
+/-- `run` visits exactly the states `GoodHistory` talks about (ties the
+history theorem to the executable that the correspondence check runs). -/
+theorem C05_run_states (E : Env α) (l : List α) (op : Op α) (ops : List (Op α)) :
+    TraitList.run E l (op :: ops) =
+      TraitList.step E l op ::
+        TraitList.run E (match TraitList.step E l op with | .ok o => o.items | .error _ => l) ops := by
+  cases h : TraitList.step E l op <;> simp [TraitList.run, h]
+
+/-- **Mutators covered** (over the table translated from the source and the
+running interpreter): every public method of the builtin `list` is either
+overridden by `TraitList` (and modelled above) or is one of the listed
+non-mutating methods.  A new or un-overridden mutator breaks this obligation. -/
+def listNonMutators : List String :=
+  ["__add__", "__class_getitem__", "__contains__", "__getitem__", "__iter__", "__len__",
+   "__mul__", "__reversed__", "__rmul__", "copy", "count", "index"]
+
+theorem C05_mutators_covered :
+    ∀ m ∈ Generated.listBuiltinMethods,
+      m ∈ Generated.traitListMethods ∨ m ∈ listNonMutators := by
+  decide
+
+/-- The overridden mutators are exactly the operations of the model. -/
+def modelledMutators : List String :=
+  ["__delitem__", "__iadd__", "__imul__", "__setitem__", "append", "clear", "extend",
+   "insert", "pop", "remove", "reverse", "sort"]
+
+theorem C05_model_covers_overrides :
+    ∀ m ∈ Generated.traitListMethods,
+      m ∈ modelledMutators ∨ m ∈ ["__deepcopy__", "__getstate__", "__init__", "__new__",
+        "__setstate__", "_notifiers", "notify"] := by
+  decide
+
+/-! ### Non-vacuity: concrete states meeting the hypotheses -/
+
+def idEnv : Env Int := { v := fun _ x => .ok x, eq := (· == ·), sort := fun l => l.mergeSort (· ≤ ·) }
+
+/-- `x[4:0:-2] = [8, 9]` on a length-5 list: a reversed extended slice. -/
+example :
+    (TraitList.step idEnv [1, 2, 3, 4, 5] (.setSlice ⟨some 4, some 0, some (-2)⟩ [8, 9])).toOption.map
+      (fun o => (o.items, o.event.map (fun e => (e.index, e.removed, e.added))))
+    = some ([1, 2, 9, 4, 8], some (.slc 2 5 2, [3, 5], [9, 8])) := by decide
+
+/-- `del x[::-2]` with oversized implicit bounds. -/
+example :
+    (TraitList.step idEnv [1, 2, 3, 4, 5] (.delSlice ⟨none, none, some (-2)⟩)).toOption.map
+      (fun o => (o.items, o.event.map (fun e => (e.index, e.removed, e.added))))
+    = some ([2, 4], some (.slc 0 5 2, [1, 3, 5], [])) := by decide
+
+/-- `x *= 0` and `x.insert(-9, 7)`. -/
+example :
+    (TraitList.step idEnv [1, 2] (.imul 0)).toOption.map (fun o => (o.items, o.event.isSome))
+      = some ([], true)
+    ∧ (TraitList.step idEnv [1, 2] (.insert (-9) 7)).toOption.map
+        (fun o => (o.items, o.event.map (fun e => e.index))) = some ([7, 1, 2], some (.idx 0)) := by
+  decide
+
+/-- A rejecting validator: the operation fails and the hypotheses of
+`C05_atomic` are met. -/
+example :
+    (TraitList.step { idEnv with v := fun k x => if k = 1 then .error .traitError else .ok x }
+      [1] (.extend [5, 6, 7])).toOption.isNone = true := by decide
+
 end TraitsVerif.Props.C05
